@@ -569,7 +569,7 @@ func (e *Engine) interpretable(fn *ssa.Function) bool {
 		return true
 	}
 	switch p {
-	case "errors", "slices", "maps":
+	case "errors", "slices", "maps", "cmp":
 		return true
 	}
 	return false
@@ -609,7 +609,7 @@ func (e *Engine) callFunction(caller *frame, fn *ssa.Function, args []Value, env
 		fn = e.prog.LookupMethod(types.NewPointer(named), fn.Pkg.Pkg, "verifAdvance")
 		name = fn.String()
 	}
-	if strings.HasPrefix(name, "slices.SortFunc[") {
+	if strings.HasPrefix(name, "slices.SortFunc[") && os.Getenv("VERIF_INSERTION_SORT") != "" {
 		return e.sortFunc(caller, args)
 	}
 	if fn.Pkg != nil && fn.Pkg.Pkg.Path() == "ti/verifapi" {
